@@ -104,6 +104,49 @@ def isAsciiCompatible (interestingStr : List Nat) (d : Dec) (missingOk : Bool) :
   | .ude => .ok false
   | .notstr | .lookup | .other => if missingOk then .ok false else .error ()
 
+/-! ## the codec registry: `codecs.lookup(name).name` as CPython computes it, then the tool's search function
+
+`_PyCodec_Lookup` normalises the name in C (`_Py_normalize_encoding`), then asks the search functions in order of registration:
+`encodings.search_function` (alias table, then `import encodings.<module>`), then `lib.encodings._codec_search_function`. -/
+
+/-- `Py_ISALNUM(c) || c == '.'` — ASCII only; the UTF-8 bytes of anything else are punctuation -/
+def isAlnumDot (c : Nat) : Bool := (48 ≤ c && c ≤ 57) || (65 ≤ c && c ≤ 90) || (97 ≤ c && c ≤ 122) || c == 46
+
+/-- `_Py_normalize_encoding`: lower-case; every run of other characters becomes one `_`, dropped at both ends -/
+def cNormalizeAux : List Nat → Bool → Bool → List Nat
+  | [], _, _ => []
+  | c :: cs, punct, started =>
+    if isAlnumDot c then (if punct && started then [95] else []) ++ lowerCp c :: cNormalizeAux cs false true
+    else cNormalizeAux cs true started
+
+def cNormalize (name : Name) : Name := cNormalizeAux name false false
+
+/-- `encodings.search_function` on a name the C side has normalised (`encodings.normalize_encoding` leaves such a name alone):
+    `aliases` = `encodings.aliases.aliases`, `modules` = the importable modules of the package with `getregentry().name` -/
+def pySearch (aliases : List (Name × Name)) (modules : List (Name × Option Name)) (n : Name) : Option Name :=
+  -- `_aliases.get(norm_encoding) or _aliases.get(norm_encoding.replace('.', '_'))`
+  let aliased := match assoc? n aliases with
+    | some a => if a.isEmpty then assoc? (n.map fun c => if c = 46 then 95 else c) aliases else some a
+    | none => assoc? (n.map fun c => if c = 46 then 95 else c) aliases
+  let modnames := match aliased with
+    | some a => [a, n]
+    | none => [n]
+  -- `if not modname or '.' in modname: continue`; the first module that imports ends the search
+  match (modnames.filter fun m => !m.isEmpty && !m.contains 46).findSome? (fun m => assoc? m modules) with
+  | some (some codec) => some codec
+  | _ => none                                      -- nothing importable, or no `getregentry`
+
+/-- `codecs.lookup(name).name` with the tool's search function installed (`none` = LookupError); names without NUL -/
+def registryLookup (aliases : List (Name × Name)) (modules : List (Name × Option Name))
+    (unm : List (Name × Name)) (tbl : List (Name × Bool)) (extra : List Name) (name : Name) : Option Name :=
+  let n := cNormalize name
+  match pySearch aliases modules n with
+  | some codec => some codec
+  | none =>
+    -- `_codec_search_function`: `charmap_encoding(encoding)` / `iconv_encoding(encoding)` both carry `name=encoding`
+    let encoding := (assoc? n unm).getD n
+    if assoc? encoding tbl == some false || extra.contains encoding then some encoding else none
+
 /-! ## `encodings.decode` — the decode every loader uses (PO text, PO escapes, MO strings) -/
 
 /-- what `data.decode(encoding)` did -/
@@ -385,11 +428,15 @@ def eucTwDecodeLoop (cns : CnsTable) : Nat → Nat → List UInt8 → Except (Na
 def eucTwDecode (cns : CnsTable) (bs : List UInt8) : Except (Nat × Bool) (List Nat) :=
   eucTwDecodeLoop cns bs.length 0 bs
 
-/-- the bytes a character is written as -/
+/-- glibc's conversion skeleton drops the Unicode TAG characters U+E0000..U+E007F when the target charset has no code for
+    them (`STANDARD_TO_LOOP_ERR_HANDLER`: `(ch >> 7) == (0xe0000 >> 7)` → `continue`) -/
+def isTag (c : Nat) : Bool := c / 128 == 0xE0000 / 128
+
+/-- the bytes a character is written as (`some []`: silently dropped) -/
 def eucTwEncodeChar (inv : CnsInverse) (c : Nat) : Option (List UInt8) :=
   if c ≤ 0x7F then some [UInt8.ofNat c]
   else match inv c with
-    | none => none
+    | none => if isTag c then some [] else none
     | some (p, r, k) =>
       if p = 1 then some [UInt8.ofNat r, UInt8.ofNat k]
       else some [0x8E, UInt8.ofNat (0xA0 + p), UInt8.ofNat r, UInt8.ofNat k]
